@@ -23,7 +23,9 @@ Section Direct.
     received : list S;                             (* GHOST: everything the device has received, in order *)
     outcomes : list outcome;                       (* GHOST: how each completed write() ended *)
     termd : nat;                                   (* GHOST: statement terminators handled by the reader *)
-    calls : nat                                    (* GHOST: write() calls started *)
+    calls : nat;                                   (* GHOST: write() calls started *)
+    stamps : list nat;                             (* GHOST: for each line of from_dev, how many terminators the device had emitted before it *)
+    temitted : nat                                 (* GHOST: terminators (and alarms) emitted by the device so far *)
   }.
 
   Inductive label :=
@@ -42,7 +44,7 @@ Section Direct.
         | Idle, x :: rest =>
             Some {| todo := todo s; ph := Waiting; ack := false; stored := stored s; queue := queue s ++ [x];
                     dev_pending := dev_pending s; from_dev := from_dev s; received := received s; outcomes := outcomes s;
-                    termd := termd s; calls := Datatypes.S (calls s) |}
+                    termd := termd s; calls := Datatypes.S (calls s); stamps := stamps s; temitted := temitted s |}
         | _, _ => None
         end
     | Return =>
@@ -50,14 +52,14 @@ Section Direct.
         | Waiting, true, x :: rest =>
             Some {| todo := rest; ph := Idle; ack := ack s; stored := false; queue := queue s; dev_pending := dev_pending s;
                     from_dev := from_dev s; received := received s;
-                    outcomes := outcomes s ++ [if stored s then Raised else Returned]; termd := termd s; calls := calls s |}
+                    outcomes := outcomes s ++ [if stored s then Raised else Returned]; termd := termd s; calls := calls s; stamps := stamps s; temitted := temitted s |}
         | _, _, _ => None
         end
     | Send =>
         match queue s with
         | x :: rest =>
             Some {| todo := todo s; ph := ph s; ack := ack s; stored := stored s; queue := rest; dev_pending := dev_pending s ++ [x];
-                    from_dev := from_dev s; received := received s ++ [x]; outcomes := outcomes s; termd := termd s; calls := calls s |}
+                    from_dev := from_dev s; received := received s ++ [x]; outcomes := outcomes s; termd := termd s; calls := calls s; stamps := stamps s; temitted := temitted s |}
         | [] => None
         end
     | DevTerm err =>
@@ -65,26 +67,31 @@ Section Direct.
         | x :: rest =>
             Some {| todo := todo s; ph := ph s; ack := ack s; stored := stored s; queue := queue s; dev_pending := rest;
                     from_dev := from_dev s ++ [if err then LErr else LOk]; received := received s; outcomes := outcomes s;
-                    termd := termd s; calls := calls s |}
+                    termd := termd s; calls := calls s; stamps := stamps s ++ [temitted s]; temitted := Datatypes.S (temitted s) |}
         | [] => None
         end
     | DevStatus =>
         Some {| todo := todo s; ph := ph s; ack := ack s; stored := stored s; queue := queue s; dev_pending := dev_pending s;
-                from_dev := from_dev s ++ [LStatus]; received := received s; outcomes := outcomes s; termd := termd s; calls := calls s |}
+                from_dev := from_dev s ++ [LStatus]; received := received s; outcomes := outcomes s; termd := termd s; calls := calls s;
+                stamps := stamps s ++ [temitted s]; temitted := temitted s |}
     | DevAlarm =>
         Some {| todo := todo s; ph := ph s; ack := ack s; stored := stored s; queue := queue s; dev_pending := dev_pending s;
-                from_dev := from_dev s ++ [LErr]; received := received s; outcomes := outcomes s; termd := termd s; calls := calls s |}
+                from_dev := from_dev s ++ [LErr]; received := received s; outcomes := outcomes s; termd := termd s; calls := calls s;
+                stamps := stamps s ++ [temitted s]; temitted := Datatypes.S (temitted s) |}
     | Read =>
         match from_dev s with
         | LOk :: rest =>
             Some {| todo := todo s; ph := ph s; ack := true; stored := stored s; queue := queue s; dev_pending := dev_pending s;
-                    from_dev := rest; received := received s; outcomes := outcomes s; termd := Datatypes.S (termd s); calls := calls s |}
+                    from_dev := rest; received := received s; outcomes := outcomes s; termd := Datatypes.S (termd s); calls := calls s;
+                    stamps := tl (stamps s); temitted := temitted s |}
         | LErr :: rest =>
             Some {| todo := todo s; ph := ph s; ack := true; stored := true; queue := queue s; dev_pending := dev_pending s;
-                    from_dev := rest; received := received s; outcomes := outcomes s; termd := Datatypes.S (termd s); calls := calls s |}
+                    from_dev := rest; received := received s; outcomes := outcomes s; termd := Datatypes.S (termd s); calls := calls s;
+                    stamps := tl (stamps s); temitted := temitted s |}
         | LStatus :: rest =>
             Some {| todo := todo s; ph := ph s; ack := ack s; stored := stored s; queue := queue s; dev_pending := dev_pending s;
-                    from_dev := rest; received := received s; outcomes := outcomes s; termd := termd s; calls := calls s |}
+                    from_dev := rest; received := received s; outcomes := outcomes s; termd := termd s; calls := calls s;
+                    stamps := tl (stamps s); temitted := temitted s |}
         | [] => None
         end
     end.
@@ -93,7 +100,7 @@ Section Direct.
      transmitted during connection (0 in a quiescent start) *)
   Definition init (stmts : list S) (stale : nat) : st :=
     {| todo := stmts; ph := Idle; ack := false; stored := false; queue := []; dev_pending := [];
-       from_dev := repeat LOk stale; received := []; outcomes := []; termd := 0; calls := 0 |}.
+       from_dev := repeat LOk stale; received := []; outcomes := []; termd := 0; calls := 0; stamps := seq 0 stale; temitted := stale |}.
 
   Fixpoint run (ls : list label) (s : st) : option st :=
     match ls with
@@ -112,7 +119,8 @@ Section Check.
 
   Definition with_line (s : st nat) (l : line) : st nat :=
     {| todo := todo nat s; ph := ph nat s; ack := ack nat s; stored := stored nat s; queue := queue nat s; dev_pending := dev_pending nat s;
-       from_dev := [l]; received := received nat s; outcomes := outcomes nat s; termd := termd nat s; calls := calls nat s |}.
+       from_dev := [l]; received := received nat s; outcomes := outcomes nat s; termd := termd nat s; calls := calls nat s;
+       stamps := [0%nat]; temitted := temitted nat s |}.
   Definition handle (s : st nat) (l : line) : st nat := match step nat Read (with_line s l) with Some s' => s' | None => s end.
 
   Definition phase_eqb (a b : phase) := match a, b with Idle, Idle | Waiting, Waiting => true | _, _ => false end.
